@@ -497,10 +497,14 @@ impl EpochStore {
         let size = block.compressed_size();
 
         let mut blocks = self.blocks.write();
-        blocks.insert(epoch, block);
-
+        // Freezing an epoch again replaces its block: only the difference counts
+        if let Some(old) = blocks.insert(epoch, block) {
+            self.total_size
+                .fetch_sub(old.compressed_size(), Ordering::Relaxed);
+        } else {
+            self.epoch_count.fetch_add(1, Ordering::Relaxed);
+        }
         self.total_size.fetch_add(size, Ordering::Relaxed);
-        self.epoch_count.fetch_add(1, Ordering::Relaxed);
 
         (node_entries, edge_entries)
     }
